@@ -887,6 +887,15 @@ class Actor(object):
 
         self._verifyShareFields(src, srcFields)
 
+        #create any non existent source fields before the destination fields
+        #are verified so that when src and dst are the same share the
+        #destination fields are verified against the created source fields
+        for field in srcFields: #use source fields for source data
+            if field not in src:
+                console.profuse("     Warning: Transfer from non-existent field '{0}' "
+                        "in share {1} ... creating anyway".format(field, src.name))
+                src[field] = None #create
+
         if not dstFields: #no destination fields so assign defaults
             if 'value' in dst:
                 dstFields = ['value'] #use value field
@@ -910,13 +919,7 @@ class Actor(object):
                                 "from '{2}' in {3}  ... creating anyway".format(
                                     dstField, dst.name, srcField, src.name))
 
-        #create any non existent source or destination fields
-        for field in srcFields: #use source fields for source data
-            if field not in src:
-                console.profuse("     Warning: Transfer from non-existent field '{0}' "
-                        "in share {1} ... creating anyway".format(field, src.name))
-                src[field] = None #create
-
+        #create any non existent destination fields
         for field in dstFields: #use destination fields for destination data
             if field not in dst:
                 console.profuse("     Warning: Transfer into non-existent field '{0}' "
